@@ -309,13 +309,17 @@ class CircuitOperation(ops.Operation):
         if len(self.qubits) > 1 or not protocols.has_unitary(self):
             return NotImplemented
 
-        unitaries = [protocols.unitary(op) for op in self.circuit.all_operations()]
+        # One loop with the bound parameters applied; it is already inverted for negative repetitions.
+        operations = list(self._mapped_any_loop.all_operations())
+        if any(len(op.qubits) != 1 for op in operations):
+            return NotImplemented  # e.g. a global phase operation: leave it to the decomposition
+        unitaries = [protocols.unitary(op) for op in operations]
         dim = max((u.shape for u in unitaries), default=(1,))[0]
         u = np.eye(dim, dtype=np.complex128)
         u = reduce(lambda u1, u2: np.dot(u1, u2, out=u), reversed(unitaries), u)
 
-        if self.repetitions != 1:
-            u = np.linalg.matrix_power(u, self.repetitions)
+        if abs(self.repetitions) != 1:
+            u = np.linalg.matrix_power(u, abs(self.repetitions))
         return u
 
     def _ensure_deterministic_loop_count(self):
